@@ -127,6 +127,12 @@ DriftOf(pre, rec, post) ==
   IN  f1 \cup f2 \cup f3 \cup f4
 
 -----------------------------------------------------------------------------
+\* for function-valued store fields: the keys at which expected and recorded values differ (diagnostics only)
+DriftDetail(pre, rec, post, fields) ==
+  LET es == Expected(pre, rec, post).s
+      fn == fields \cap {"assets", "vals", "dels", "unbQ", "redRec", "redQ", "snaps"}
+  IN  [f \in fn |-> ToString({k \in DOMAIN es[f] \cup DOMAIN post[f] : k \notin DOMAIN es[f] \/ k \notin DOMAIN post[f] \/ es[f][k] # post[f][k]})]
+
 Init == l = 0 /\ st = EmptyState /\ gh = GhostInit /\ tr = ""
 
 Emit(kind, rec, payload) ==
@@ -154,7 +160,7 @@ Next ==
                   /\ tr' = tr
                   /\ l' = l + 1
                   /\ \A x \in v : PrintT("VIOL " \o ToJson([trace |-> tr, i |-> rec.i, ev |-> rec.ev, prop |-> x.p, msg |-> x.m, kf |-> x.kf]))
-                  /\ d = {} \/ PrintT("DRIFT " \o ToJson([trace |-> tr, i |-> rec.i, ev |-> rec.ev, fields |-> d]))
+                  /\ d = {} \/ PrintT("DRIFT " \o ToJson([trace |-> tr, i |-> rec.i, ev |-> rec.ev, fields |-> d, detail |-> DriftDetail(st, rec, post, d)]))
                   /\ c = {} \/ PrintT("COVER " \o ToJson([trace |-> tr, i |-> rec.i, tags |-> c]))
 
 Spec == Init /\ [][Next]_vars
